@@ -463,6 +463,9 @@ func main() {
 	if phase == "all" || phase == "traces" {
 		tracesPhase(thorough)
 	}
+	if phase == "hostile" {
+		hostilePhase(thorough)
+	}
 	stats["shrink-evaluations"] = shrinkEvals
 	keys := make([]string, 0, len(stats))
 	for k := range stats {
